@@ -56,3 +56,33 @@ Proof. unfold len. cbn [length]. lia. Qed.
 Lemma len_nil {A} : len (@nil A) = 0. Proof. reflexivity. Qed.
 Lemma len_app {A} (a b : list A) : len (a ++ b) = len a + len b.
 Proof. unfold len. rewrite app_length. lia. Qed.
+
+(* ---- stepping tactics for sequences of take_u8 on explicit lists ---- *)
+Ltac solve_lim_ge :=
+  first [ exact I
+        | cbn; trivial; fail
+        | repeat apply lim_ge_sub; eapply lim_ge_mono; [|eassumption]; cbn; lia ].
+
+Ltac step_take_u8 :=
+  match goal with
+  | |- context [bind take_u8 ?f (mkSrc (?b :: ?r) ?l None)] =>
+      rewrite (bind_ok take_u8 f (mkSrc (b :: r) l None) b (mkSrc r (lim_sub l 1) None))
+        by (apply take_u8_cons; solve_lim_ge); cbv beta
+  | |- context [bind take_u8 ?f (mkSrc [] ?l None)] =>
+      rewrite (bind_cerr take_u8 f (mkSrc [] l None) (mkSrc [] l None))
+        by (apply take_u8_nil); cbv beta
+  | |- context [bind take_opt_u8 ?f (mkSrc (?b :: ?r) ?l None)] =>
+      rewrite (bind_ok take_opt_u8 f (mkSrc (b :: r) l None) (Some b) (mkSrc r (lim_sub l 1) None))
+        by (apply take_opt_u8_cons; solve_lim_ge); cbv beta iota
+  | |- context [bind take_opt_u8 ?f (mkSrc [] ?l None)] =>
+      rewrite (bind_ok take_opt_u8 f (mkSrc [] l None) None (mkSrc [] l None))
+        by (apply take_opt_u8_nil); cbv beta iota
+  end.
+
+Lemma octets_ok_cons b r : octets_ok (b :: r) = true -> b < 256 /\ octets_ok r = true.
+Proof.
+  cbn [octets_ok forallb]. intro H. apply andb_true_iff in H as [H1 H2].
+  unfold octet_ok in H1. split; [lia|exact H2].
+Qed.
+Lemma octets_ok_app a b : octets_ok (a ++ b) = octets_ok a && octets_ok b.
+Proof. unfold octets_ok. apply forallb_app. Qed.
